@@ -6,6 +6,7 @@ import (
 	"fmt"
 	"os"
 	"os/exec"
+	"runtime"
 	"sort"
 	"strconv"
 	"strings"
@@ -108,6 +109,12 @@ type Summary struct {
 	KnownHits    map[string]int64    `json:"known_hits"`
 	WallS        float64             `json:"wall_s"`
 	Digest       string              `json:"digest"` // hash of all per-run event-log hashes (determinism self-test)
+	// Next is the first run index this worker did not execute (it stops early when its
+	// memory grows: abandoned runs leave parked goroutines behind); the driver starts a
+	// fresh process there.
+	Next     int64  `json:"next"`
+	Recycled bool   `json:"recycled"`
+	MemSysMB uint64 `json:"mem_sys_mb"`
 }
 
 type classed interface{ class() string }
@@ -249,10 +256,24 @@ func workerRun(t *testing.T) {
 		hashLog = f
 	}
 
+	sum.Next = to
+
+	memLimit := uint64(envInt("SIM_MEM_MB", 1000)) << 20
+
 	for idx := from; idx < to; idx += stride {
 		if time.Now().After(deadline) {
 			sum.To = idx
 			break
+		}
+
+		if n := (idx - from) / stride; n > 0 && n%128 == 0 {
+			var ms runtime.MemStats
+			runtime.ReadMemStats(&ms)
+
+			if ms.Sys > memLimit {
+				sum.To, sum.Next, sum.Recycled = idx, idx, true
+				break
+			}
 		}
 
 		name := names[int(idx)%len(names)]
@@ -379,6 +400,10 @@ func workerRun(t *testing.T) {
 			break
 		}
 	}
+
+	var msEnd runtime.MemStats
+	runtime.ReadMemStats(&msEnd)
+	sum.MemSysMB = msEnd.Sys >> 20
 
 	sum.WallS = time.Since(start).Seconds()
 	sum.Digest = fmt.Sprintf("%016x", digest)
